@@ -25,3 +25,33 @@ pub fn fresh_default<A: Actor>(Tracked(w): Tracked<&mut World>) -> (r: A)
     requires allowed(old(w).lc, Ev::Recreated { gid: 0 }),                                                                    // @ob lc.recreate-allowed C07
     ensures emits(old(w), final(w), Ev::Recreated { gid: r.gid() }),
 { unimplemented!() }
+
+// the callbacks as future *values* (rule A1b): a callback future that is dropped un-completed never reports its lifecycle event
+#[verifier::external_body] pub struct StartedFut<'a> { p: core::marker::PhantomData<&'a mut ()> }
+impl<'a> StartedFut<'a> { pub uninterp spec fn gid(&self) -> int; pub uninterp spec fn needs(&self) -> nat; }
+impl<'a> VFuture for StartedFut<'a> {
+    type Output = DynResult<()>;
+    open spec fn pre(&self, w: &World) -> bool { started_phase_ok(w.lc, self.gid()) && started_timers_ok(w.lc) }
+    open spec fn done(&self, w0: &World, w1: &World, out: &DynResult<()>) -> bool { emits(w0, w1, Ev::CbStarted { gid: self.gid(), ok: *out is Ok }) }
+    open spec fn dropped(&self, w0: &World, w1: &World) -> bool { same_world(w0, w1) }
+    open spec fn ready_at(&self) -> nat { self.needs() }
+    #[verifier::external_body] fn await_(self, Tracked(w): Tracked<&mut World>) -> (r: DynResult<()>) { unimplemented!() }
+}
+#[verifier::external_body] pub struct UnitCbFut<'a> { p: core::marker::PhantomData<&'a mut ()> }
+impl<'a> UnitCbFut<'a> { pub uninterp spec fn ev(&self) -> Ev; pub uninterp spec fn needs(&self) -> nat; }
+impl<'a> VFuture for UnitCbFut<'a> {
+    type Output = ();
+    open spec fn pre(&self, w: &World) -> bool { allowed(w.lc, self.ev()) }
+    open spec fn done(&self, w0: &World, w1: &World, out: &()) -> bool { emits(w0, w1, self.ev()) }
+    open spec fn dropped(&self, w0: &World, w1: &World) -> bool { same_world(w0, w1) }
+    open spec fn ready_at(&self) -> nat { self.needs() }
+    #[verifier::external_body] fn await_(self, Tracked(w): Tracked<&mut World>) -> (r: ()) { unimplemented!() }
+}
+pub trait ActorFutures: Actor {
+    fn started__fut<'a>(&'a mut self, ctx: &'a mut Context<Self>) -> (r: StartedFut<'a>) ensures r.gid() == old(self).gid(), final(self).gid() == old(self).gid();
+    fn stopped__fut<'a>(&'a mut self, ctx: &'a mut Context<Self>) -> (r: UnitCbFut<'a>) ensures r.ev() == (Ev::CbStopped { gid: old(self).gid() }), final(self).gid() == old(self).gid();
+}
+impl<A: Actor> ActorFutures for A {
+    #[verifier::external_body] fn started__fut<'a>(&'a mut self, ctx: &'a mut Context<Self>) -> (r: StartedFut<'a>) { unimplemented!() }
+    #[verifier::external_body] fn stopped__fut<'a>(&'a mut self, ctx: &'a mut Context<Self>) -> (r: UnitCbFut<'a>) { unimplemented!() }
+}
